@@ -105,7 +105,7 @@ func candidateSignatures(m *Mismatch, ev map[string]any, sc *Scenario) []string 
 		if m.Hdr != "" && !cleanHeaderRe.MatchString("["+id+"]") {
 			out = append(out, "K6")
 		}
-		if run != "" && m.Hdr != "" && (m.Info == "protected") {
+		if run != "" && m.Hdr != "" && m.Info == "protected" && m.St == "run" {
 			// the code protects an entry iff the -run expression does NOT match the whole id
 			if re, err := regexp.Compile(run); err == nil {
 				if !re.MatchString(name) && re.MatchString(id) {
@@ -117,10 +117,16 @@ func candidateSignatures(m *Mismatch, ev map[string]any, sc *Scenario) []string 
 			}
 		}
 		if m.Hdr == "" && m.Path != "" && m.Info == "protected" {
-			if run != "" {
-				out = append(out, "K4") // file-level protection under -run
+			// file-level protection. The code's rule: a file is kept under -run iff it is
+			// <testfile>.snap next to ../<testfile>.go and no function declared there matches the
+			// pattern; it knows nothing about snaps.Skip*. What that rule does not cover is known
+			// (K4, F5); a file the rule covers must be protected.
+			if m.St == "run" && !codeRuleProtectsFile(sc, m.Path, run) {
+				out = append(out, "K4")
 			}
-			out = append(out, "F5") // file-level protection of skipped owners
+			if m.St == "skip" {
+				out = append(out, "F5")
+			}
 		}
 		if count > 1 && m.Hdr != "" && (m.Info == "addressed") && unevenExecs(sc, name) {
 			out = append(out, "K5")
@@ -183,4 +189,30 @@ func unevenExecs(sc *Scenario, name string) bool {
 		}
 	}
 	return false
+}
+
+// driverFuncs: names of the functions declared in the driver's main_test.go (what isFileSkipped
+// sees when it parses ../main_test.go)
+var driverFuncs = []string{"TestMain", "itoa", "captureStdout", "run", "TestA", "TestAB", "TestA1", "TestB", "TestB2", "TestC",
+	"TestZ", "Test1", "TestA_x", "TestBulk", "helper1", "helper2", "helper3"}
+
+func codeRuleProtectsFile(sc *Scenario, absPath, run string) bool {
+	if sc == nil || !sc.DefaultLoc || run == "" {
+		return false
+	}
+	i := strings.LastIndex(absPath, "/")
+	dir, base := absPath[:i], absPath[i+1:]
+	if !strings.HasSuffix(dir, "/__snapshots__") || base != "main_test.snap" {
+		return false
+	}
+	re, err := regexp.Compile(run)
+	if err != nil {
+		return false
+	}
+	for _, f := range driverFuncs {
+		if re.MatchString(f) {
+			return false
+		}
+	}
+	return true
 }
